@@ -17,7 +17,7 @@ META = {
                    'streams tie the recurrences to the wording of the property.',
     'bounds': {
         'quick': {'induction': 'N symbolic (any stream length)', 'explicit_streams': 'Welford n<=5, smoothing n<=8'},
-        'thorough': {'induction': 'N symbolic (any stream length)', 'explicit_streams': 'Welford n<=8, smoothing n<=12'},
+        'thorough': {'induction': 'N symbolic (any stream length)', 'explicit_streams': 'Welford n<=10, smoothing n<=16'},
     },
     'outside': ['floating-point rounding (values are mathematical reals; C20 covers rounding)',
                 'the induction principle itself (base + step => all lengths) is a meta-argument, not machine-checked',
@@ -30,8 +30,8 @@ META = {
 
 
 def configs(tier):
-    nw = 5 if tier == 'quick' else 8
-    ns = 8 if tier == 'quick' else 12
+    nw = 5 if tier == 'quick' else 10
+    ns = 8 if tier == 'quick' else 16
     cfgs = [{'group': 'welford_step'}, {'group': 'welford_base'}, {'group': 'welford_linear'},
             {'group': 'smooth_step'}, {'group': 'smooth_base'}, {'group': 'smooth_linear'},
             {'group': 'smooth_ctor'}]
